@@ -32,7 +32,7 @@ theorem WInv.safe {w : World} (h : WInv w) : Safe w :=
 
 /-- The invariant carried along a run: safety always; the full world invariant while every
 process is alive. -/
-def RunInv (w : World) : Prop := Safe w ∧ (w.died = none → WInv w)
+def RunInv (w : World) : Prop := Safe w ∧ (∀ f ∈ w.flows, FlowSock f) ∧ (w.died = none → WInv w)
 
 theorem chans_step_prefix (w : World) (st : Step) : chans w <+: chans (w.step st) := by
   unfold World.step
@@ -59,13 +59,16 @@ theorem RunInv.step {w : World} (h : RunInv w) (st : Step) (hg : GoodStep st)
     have hd0 : w.died = none := by simpa using hd
     by_cases hd1 : (w.stepRaw st).died.isSome = true
     · rw [if_pos hd1]
-      refine ⟨h.1, ?_⟩
+      refine ⟨h.1, h.2.1, ?_⟩
       intro hnone
       simp only at hnone
       rw [hnone] at hd1; simp at hd1
     · rw [if_neg hd1] at hn ⊢
-      have hw := (h.2 hd0).stepRaw hd0 st hg hn (by simpa using hd1)
-      exact ⟨hw.safe, fun _ => hw⟩
+      have hw := (h.2.2 hd0).stepRaw (fun j f hj => h.2.1 f (List.mem_of_getElem? hj)) hd0 st hg hn (by simpa using hd1)
+      have hs := flow_invariant_step FlowSock flowSock_new flowSock_ev w h.2.1 st
+      unfold World.step at hs
+      rw [if_neg hd, if_neg hd1] at hs
+      exact ⟨hw.safe, hs, fun _ => hw⟩
 
 theorem RunInv.run {w : World} (h : RunInv w) (steps : List Step) (hg : ∀ st ∈ steps, GoodStep st)
     (hn : (chans (w.run steps)).Nodup) : RunInv (w.run steps) := by
@@ -84,7 +87,7 @@ def Fresh (w : World) : Prop :=
 
 theorem Fresh.runInv {w : World} (h : Fresh w) : RunInv w := by
   obtain ⟨h1, h2, h3⟩ := h
-  refine ⟨fun i f hi => by rw [h1] at hi; simp at hi, fun _ => ⟨?_, ?_, ?_⟩⟩
+  refine ⟨fun i f hi => (by rw [h1] at hi; simp at hi), fun f hf => (by rw [h1] at hf; cases hf), fun _ => ⟨?_, ?_, ?_⟩⟩
   · intro i f hi; rw [h1] at hi; simp at hi
   · intro fr hfr hs; rw [h2 fr hfr] at hs; cases hs
   · intro fr hfr hs; rw [h3 fr hfr] at hs; cases hs
@@ -119,22 +122,20 @@ theorem C01_prefix (w0 : World) (h0 : Fresh w0) (steps : List Step)
 As long as the destination socket of a flow has not been shut down, the bytes read from the
 application are EXACTLY: what the destination received, then what the server-side wrapper
 buffers, then the payloads of this flow's DATA frames still in the client → server queue, then
-what the client-side wrapper buffers — plus a tail `lost` that is non-empty only after the
-client stopped reading from the application (it discarded its buffer on STOP_SENDING or was
-torn down).  Symmetrically for the other direction. -/
+what the client-side wrapper buffers.  Nothing is lost, whatever happens in the other direction
+or in other flows: the client discards buffered bytes only on STOP_SENDING, and the server sends
+that only after it has shut the destination socket.  Symmetrically for the other direction. -/
 theorem C01_conservation (w0 : World) (h0 : Fresh w0) (steps : List Step)
     (hg : ∀ st ∈ steps, GoodStep st) (hn : (chans (w0.run steps)).Nodup)
     (halive : (w0.run steps).died = none) :
     ∀ f ∈ (w0.run steps).flows,
-      (f.dst.sawShut = true ∨ ∃ lost,
+      (f.dst.sawShut = true ∨
         f.app.consumed = f.dst.delivered ++ (upSink f).buf ++ dataOf f.chan (w0.run steps).cm.out ++
-          (upSrc (w0.run steps).cm f).buf ++ lost ∧
-        (lost ≠ [] → (upSrc (w0.run steps).cm f).present = false ∨ (upSrc (w0.run steps).cm f).shutR = true)) ∧
-      (f.app.sawShut = true ∨ ∃ lost,
+          (upSrc (w0.run steps).cm f).buf) ∧
+      (f.app.sawShut = true ∨
         f.dst.consumed = f.app.delivered ++ (downSink f).buf ++ dataOf f.chan (w0.run steps).sm.out ++
-          (downSrc (w0.run steps).sm f).buf ++ lost ∧
-        (lost ≠ [] → (downSrc (w0.run steps).sm f).present = false ∨ (downSrc (w0.run steps).sm f).shutR = true)) := by
-  have hw := (h0.runInv.run steps hg hn).2 halive
+          (downSrc (w0.run steps).sm f).buf) := by
+  have hw := (h0.runInv.run steps hg hn).2.2 halive
   intro f hf
   obtain ⟨i, hi⟩ := List.getElem?_of_mem hf
   have hfo := hw.flows i f hi
@@ -147,12 +148,12 @@ theorem C01_conservation (w0 : World) (h0 : Fresh w0) (steps : List Step)
   have eD3 : (downSrc (w0.run steps).sm f).consumed = f.dst.consumed := by unfold downSrc; split <;> rfl
   have eD4 : (downSrc (w0.run steps).sm f).out = (w0.run steps).sm.out := downSrc_out _ _
   constructor
-  · rcases hfo.up.exact with h | ⟨lost, he, hl⟩
+  · rcases hfo.up.exact with h | he
     · left; rw [← eU2]; exact h
-    · right; exact ⟨lost, by rw [← eU1, ← eU3, ← eU4]; exact he, fun hne => (hl hne).2⟩
-  · rcases hfo.down.exact with h | ⟨lost, he, hl⟩
+    · right; rw [← eU1, ← eU3, ← eU4]; exact he
+  · rcases hfo.down.exact with h | he
     · left; rw [← eD2]; exact h
-    · right; exact ⟨lost, by rw [← eD1, ← eD3, ← eD4]; exact he, fun hne => (hl hne).2⟩
+    · right; rw [← eD1, ← eD3, ← eD4]; exact he
 
 /-- Non-vacuity: a concrete schedule with two concurrent flows, a payload crossing the 2048-byte
 frame cut, a short write and a would-block reaches a state in which both flows have delivered
